@@ -62,12 +62,28 @@ def make_case(cid, rng, kinds, msg_classes, name_mode):
                 illegal.add(ncls)
         tests[tid] = t
         ids.append(tid)
+    # doctest cases next to the unittest ones
+    doctests = {}
+    for k in range(rng.choice([0, 0, 1, 2])):
+        did = 'd%d' % (k + 1)
+        text = 'dm%d ' % k + ''.join(rng.choice(CLASSES[c]) for c in msg_classes if c != 'long')
+        lit = text.encode('unicode_escape').decode('ascii').replace('"', '\\"')
+        kind = rng.choice(['pass', 'fail', 'error'])
+        src = {'pass': '>>> 1 + 1\n2\n',
+               'fail': '>>> print("%s")\nsomething else\n' % lit,
+               'error': '>>> raise ValueError("%s")\n' % lit}[kind]
+        doctests[did] = {'name': rng.choice(['tests.doc_%d', 'tests.sub.doc_%d', 'tests.a.b.doc_%d']) % k,
+                         'source': src, 'kind': 'doctest-' + kind}
+        if kind != 'pass':
+            illegal |= {c for c in msg_classes if c in ILLEGAL}
     half = max(1, len(ids) // 2)
     classes = {'TA': {'tests': ids[:half], 'layer': 'L1'}}
     if ids[half:]:
         classes['TB'] = {'tests': ids[half:]}
     world = {'id': cid, 'layers': {'L1': {'kind': 'class', 'bases': [], 'hooks': ['setUp', 'tearDown']}},
              'layer_order': ['L1'], 'classes': classes, 'tests': tests}
+    if doctests:
+        world['doctests'] = doctests
     args = []
     rep = 1
     if rng.random() < 0.25:
@@ -87,6 +103,8 @@ def record(case, res, ref):
     for c, cs in w['classes'].items():
         for t in cs['tests']:
             own[t] = ('tests.' + c, w['tests'][t].get('name', 'test_' + t))
+    for did, d in w.get('doctests', {}).items():
+        own[did] = (d['name'].rpartition('.')[0], d['name'].rpartition('.')[2])
 
     def pattern(n):
         # a character XML 1.0 cannot carry may be rendered by any short
@@ -127,13 +145,13 @@ def run(chk, tier, seed, replay=None):
                 'test once per iteration, every bad event a testcase of its own test with the right child; '
                 'the serialiser table maps every character class sequence <= 3 to something XML 1.0 allows; '
                 'three deviation configs give counterexamples. (2) real in-process --xml runs: 13 outcome '
-                'kinds (failing subtests, unexpected successes, two-event tests, decorator skips) x messages '
+                'kinds (failing subtests, unexpected successes, two-event tests, decorator skips) and passing / failing / raising doctest cases x messages '
                 'built from 12 character classes (markup, ]]>, newlines, C0 controls, NUL, DEL/C1, lone '
                 'surrogates, U+FFFE/F, astral, non-ASCII, 20 kB) x odd test names (dots, spaces, markup, '
                 'non-ASCII, control characters) x --repeat / --buffer; every report file is parsed with '
                 'expat and TLC compares it with the recorded run; distinct = distinct (kinds, classes, names, options)')
     chk.assumptions += ['the Unicode range is covered by class partition (one or two members per class)',
-                        'doctest cases are not generated (the worlds are unittest based)']
+                        'doctest cases are DocTestCase objects built from generated sources (DocFileCase / manuel are not generated)']
     rng = random.Random(seed * 7919 + 17)
     if replay:
         with open(replay) as f:
